@@ -28,6 +28,11 @@ LATE_FAILURES = [
     H + "qubit[3] q;\ngate inner(t) a { rx(t) a; rx(nope) a; }\ngate outer a, b { cx a, b; inner(0.5) b; }\nh q[0];\nouter q[0], q[1];\n",
     H + "qubit[3] q;\ndef f(qubit[2] a, int[8] n) { h a[0]; for int i in [0:n] { x a[i]; } }\nf(q[0:2], 1);\nf(q[1:3], 3);\n",
     H + "qubit[3] q;\nint[8] sw = 2;\nswitch (sw) { case 1 { x q[0]; } case 2 { h q[1]; h q[5]; } default { z q[0]; } }\n",
+    # everything an accepted prefix may have touched before the rejection: inverted and repeated custom gates with
+    # order-sensitive bodies, modified gphase, loops, subroutine calls, aliases
+    H + "qubit[3] q;\ngate seq x, y { s x; h y; cx x, y; t y; }\ninv @ seq q[0], q[1];\npow(2) @ inv @ seq q[1], q[2];\npow(2) @ gphase(0.25);\nh q[7];\n",
+    H + "qubit[3] q;\ngate seq(a) x, y { rx(a) x; cx x, y; rz(a) y; }\ngate outer x, y { seq(0.5) x, y; inv @ seq(0.25) y, x; h x; }\n"
+        "def f(qubit[2] p) { inv @ outer p[0], p[1]; }\nfor int i in [0:1] { f(q[i:i+2]); }\nlet al = q[{2, 0}];\ninv @ outer al[0], al[1];\nrx(nope) q[0];\n",
 ]
 
 
@@ -269,6 +274,11 @@ def run(tier, seed, replay):
     for src in bad_progs:
         for _ in range(2 if tier == "quick" else 4):
             jobs.append((src, [rnd.choice(OPS) for _ in range(rnd.randint(2, 7))]))
+    for src in LATE_FAILURES:
+        # what the module prints and answers after each way of being rejected, once and repeatedly
+        for hist in (["unroll", "dumps"], ["validate", "dumps", "unroll", "dumps"], ["unroll", "unroll", "num_qubits", "dumps", "depth", "dumps"],
+                     ["depth", "dumps", "has_measurements", "validate", "dumps"]):
+            jobs.append((src, hist))
     for e in known:
         rp = e.get("replay", {})
         if rp.get("kind") == "history" and rp.get("calls") and isinstance(rp["calls"][0], str):
